@@ -17,7 +17,7 @@ confirm = ""
 if os.path.exists(os.path.join(src, "confirm.log")):
     lines = [l for l in open(os.path.join(src, "confirm.log")) if l.startswith("CONFIRMED") or l.startswith("NOT-CONFIRMED")]
     confirm = lines[-1].strip() if lines else ""
-base = subprocess.run(["git", "-C", f"{wt_base}-{pid}", "rev-parse", "HEAD"], capture_output=True, text=True).stdout.strip()
+base = os.environ.get("BASE_COMMIT") or subprocess.run(["git", "-C", f"{wt_base}-{pid}", "rev-parse", "HEAD"], capture_output=True, text=True).stdout.strip()
 meta = {
     "property": pid,
     "seed": f"{pid}-{keep_n}",
